@@ -333,6 +333,9 @@ type PathSim struct {
 	OnInstr func(fn *ssa.Function, st *pstate, ins ssa.Instruction)
 	// trackGlobals: stores to package-level variables are interpreted (package initialisers only)
 	trackGlobals bool
+	// Recursion: how many nested activations of one function may be interpreted in place (0 = a function is never
+	// interpreted inside itself; its recursive calls are opaque). Paths that would need more are cut, like loop visits.
+	Recursion int
 	// IfaceAssertIdentity: x.(I) for an interface type I denotes x itself (facts about x's dynamic type carry over)
 	IfaceAssertIdentity bool
 	// NoTables: do not resolve initialise-once package-level tables (loads stay symbolic)
@@ -1547,12 +1550,55 @@ func (ps *PathSim) walk(fn *ssa.Function, b *ssa.BasicBlock, start int, pred *ss
 					}
 				}
 				localClosure := callee != nil && callee.Parent() == fn && bindings != nil
-				if callee != nil && ps.Inline != nil && depth < ps.MaxDepth && len(callee.Blocks) > 0 && callee != fn && (ps.Inline(callee) || localClosure) {
+				active := 0
+				if callee != nil && ps.Recursion > 0 {
+					for _, t := range st.trail {
+						if t == "enter:"+callee.Name() {
+							active++
+						} else if t == "leave:"+callee.Name() {
+							active--
+						}
+					}
+					if callee == fn && depth == 0 {
+						active++ // the function being analysed itself
+					}
+				}
+				reentrant := active > 0
+				if reentrant && ps.Inline != nil && ps.Inline(callee) && (active >= ps.Recursion || depth >= ps.MaxDepth) {
+					ps.Truncated++ // deeper recursion than explored
+					return
+				}
+				if callee != nil && ps.Inline != nil && depth < ps.MaxDepth && len(callee.Blocks) > 0 && (callee != fn || ps.Recursion > 0) && (ps.Inline(callee) || localClosure) {
 					com := x.Common()
 					iev := Event{Instr: x, In: fn, Callee: callee, Inlined: true}
-					for k, p := range callee.Params {
+					// a nested activation of a function that is already being interpreted: its values are saved and restored
+					var saved map[ssa.Value]*Sym
+					if reentrant {
+						saved = map[ssa.Value]*Sym{}
+						for _, p := range callee.Params {
+							if v, ok := st.env[p]; ok {
+								saved[p] = v
+							}
+						}
+						for _, cb := range callee.Blocks {
+							for _, ci := range cb.Instrs {
+								if v, ok := ci.(ssa.Value); ok {
+									if sv, has := st.env[v]; has {
+										saved[v] = sv
+									}
+								}
+							}
+						}
+					}
+					var newArgs []*Sym
+					for k := range callee.Params {
 						if k < len(com.Args) {
-							st.env[p] = ps.sym(st, com.Args[k])
+							newArgs = append(newArgs, ps.sym(st, com.Args[k]))
+						}
+					}
+					for k, p := range callee.Params {
+						if k < len(newArgs) {
+							st.env[p] = newArgs[k]
 							iev.Args = append(iev.Args, st.env[p])
 						}
 					}
@@ -1577,6 +1623,18 @@ func (ps *PathSim) walk(fn *ssa.Function, b *ssa.BasicBlock, start int, pred *ss
 							rs = res[0]
 						} else {
 							rs = &Sym{K: sTuple, Kids: res, T: x.Type()}
+						}
+						if saved != nil {
+							for _, cb := range callee.Blocks {
+								for _, ci := range cb.Instrs {
+									if v, ok := ci.(ssa.Value); ok {
+										delete(st2.env, v)
+									}
+								}
+							}
+							for k, v := range saved {
+								st2.env[k] = v
+							}
 						}
 						st2.env[x] = rs
 						st2.trail = append(st2.trail, "leave:"+callee.Name())
